@@ -17,8 +17,8 @@ LEVEL = "exploration"
 RULE = (
     "histories: one project directory (hash-length in {1,2,3,12,64}, storage-dir default / relative / absolute, "
     "two test files) goes through a generated history of 3-10 steps drawn from add_test(data, suffix) / "
-    "edit_data(test) / remove_test / unreference(test) / run_session(category subset, report|review+answers, all "
-    "files | one file); the data pool holds str and bytes values incl. the empty one, the same data under two "
+    "edit_data(test) / remove_test / unreference(test) / run_session(category subset, report|review+answers, or an "
+    "inactive session: --inline-snapshot=disable / CI=true, all files | one file); the data pool holds str and bytes values incl. the empty one, the same data under two "
     "suffixes, and pairs whose SHA-256 share a 1-3 hex digit prefix (searched by the generator) so that short "
     "hash-lengths collide. The history is one generated value (it shrinks as a whole) interpreted against a real "
     "pytest process per session. After every step the storage listing and the external(...) references in the "
@@ -87,7 +87,7 @@ def _case(draw, tier):
             steps.append([k, draw(st.integers(0, 7))])
         else:
             steps.append(["run", draw(st.one_of(cats, st.just(["create", "fix"]), st.just(["create", "fix", "trim"]))),
-                          draw(st.sampled_from(["none", "none", "report", "review"])),
+                          draw(st.sampled_from(["none", "none", "none", "report", "review", "review", "disable", "ci"])),
                           draw(st.text(alphabet="yn", max_size=4)), draw(st.sampled_from(["all", "all", 0, 1]))])
     steps.append(["run", ["create", "fix", "trim"], "none", "", "all"])
     return {"hash_length": draw(st.sampled_from([1, 2, 3, 12, 12, 64])),
@@ -218,14 +218,23 @@ def check(case):
                 continue
             before = pr.listing()
             refs_before = set(pr.refs())
-            words = list(cats) + ([mode] if mode != "none" else [])
+            env = None
+            if mode == "disable":
+                # an inactive session: nothing is approved, but outsource() still stores its data and the
+                # leftovers of the previous session still have to go at its start
+                cats, words = [], ["disable"]
+            elif mode == "ci":
+                env, words = {"CI": "true"}, list(cats)
+                cats = []
+            else:
+                words = list(cats) + ([mode] if mode != "none" else [])
             args = (["--inline-snapshot=" + ",".join(words)] if words else []) + [f"test_f{f}.py" for f in files]
             stdin = ("\n".join(answers + "nnnnnnnn") + "\n").encode()
-            r = drivers.run_pytest(pr.dir, args, stdin=stdin)
+            r = drivers.run_pytest(pr.dir, args, stdin=stdin, env=env)
             sessions += 1
             if sessions >= 2 and dirty:
                 edited_between = True
-            trace.append(f"session {' '.join(args)} answers={answers!r} -> rc {r.returncode}")
+            trace.append(f"session {' '.join(args)}{' CI=true' if env else ''} answers={answers!r} -> rc {r.returncode}")
             ctx = lambda: "history:\n  " + "\n  ".join(trace) + f"\nhash-length={case['hash_length']} storage={case['storage']}\n" + r.stdout[-1500:]
             if "INTERNALERROR" in r.stdout or r.returncode not in (0, 1):
                 raise Violation("session-broken", ctx() + r.stderr[-1500:])
